@@ -1,5 +1,5 @@
 SPECIFICATION Spec
-CONSTANTS NH = 2 NO = 1 NN = 2 MaxLen = 3 MaxLen2 = 1 MaxSub = 2 MaxArg = 3 Kinds = {"cfg"} Fails = {0, 1} FailOut = TRUE Prune = FALSE
+CONSTANTS NH = 2 NO = 1 NN = 2 MaxLen = 3 MaxLen2 = 1 MaxSub = 2 MaxArg = 3 Kinds = {"cfg"} Solo = {} Fails = {0, 1} FailOut = TRUE Prune = FALSE
 CONSTRAINT Bound
 VIEW View
 INVARIANTS TypeOK AliasOK Refines Balance AllGone OneSlot
